@@ -131,6 +131,29 @@ type Catalog struct {
 	Statements int
 	DataStmts  int
 	Errors     []string
+
+	// DataWrites are the one-shot INSERT/UPDATE/DELETE statements of the migrations (top level
+	// and DO blocks), with the file they come from. Rules apply the who-may-write invariants to
+	// those of migrations added after the tree they were confirmed on.
+	DataWrites []DataWrite
+}
+
+// DataWrite is a data-changing statement executed once by a migration.
+type DataWrite struct {
+	Origin string // file:line
+	File   string
+	Toks   []Token
+	Stmt   *Stmt // nil when it could not be parsed
+	Err    error
+}
+
+func (c *Catalog) dataWrite(st []Token, origin string) {
+	if len(st) == 0 {
+		return
+	}
+	dw := DataWrite{Origin: fmt.Sprintf("%s:%d", origin, st[0].Line), File: origin, Toks: st}
+	dw.Stmt, dw.Err = ParseStmt(st)
+	c.DataWrites = append(c.DataWrites, dw)
 }
 
 func NewCatalog() *Catalog {
@@ -488,6 +511,7 @@ func (c *Catalog) applyStmt(st []Token, origin string, perLedger bool, cond stri
 		c.DataStmts++
 	case k.kw("insert"), k.kw("update"), k.kw("delete"), k.kw("with"):
 		c.DataStmts++
+		c.dataWrite(st, origin)
 	case k.kw("vacuum"), k.kw("analyze"), k.kw("lock"), k.kw("call"), k.kw("comment"), k.kw("grant"), k.kw("reindex"), k.kw("truncate"):
 		c.DataStmts++
 	default:
@@ -608,7 +632,10 @@ func (c *Catalog) applyBodyStmt(f []Token, origin string, vars map[string]string
 	switch f[0].Text {
 	case "create", "alter", "drop", "set":
 		c.applyStmt(f, origin, false, "")
-	case "insert", "update", "delete", "with", "select", "perform", "raise", "return", "if", "elsif", "assert", "lock", "vacuum", "analyze", "call", "exit", "continue", "null", "while", "get", "commit":
+	case "insert", "update", "delete", "with":
+		c.DataStmts++
+		c.dataWrite(f, origin)
+	case "select", "perform", "raise", "return", "if", "elsif", "assert", "lock", "vacuum", "analyze", "call", "exit", "continue", "null", "while", "get", "commit":
 		c.DataStmts++
 	default:
 		c.opaque(f, origin, "unrecognised statement in DO block")
